@@ -56,12 +56,17 @@ PidByteOf(n) == n + 16 * (15 - n)          \* PID followed by its one's compleme
 
 (* Inter-packet response window at the PHY boundary, in PHY clocks (C05):       *)
 (* ULPI 60 MHz: FS 2 .. 6.5 bit times = 10 .. 32 clocks, HS 1 .. 24 clocks      *)
-(* [USB2 7.1.18, ULPI 1.1 Fig. 18]; FS line: 2 .. 6.5 bit times, in 48 MHz      *)
-(* samples = 8 .. 26.  PhyLatency: what the PHY interface itself may add        *)
-(* between the device core's decision and the TXCMD standing on the bus /       *)
-(* the SYNC leaving the pins (a free parameter of the composition).             *)
+(* [USB2 7.1.18, ULPI 1.1 Fig. 18], plus PhyLatency: what the PHY interface     *)
+(* itself may add between the device core's decision and the TXCMD standing on  *)
+(* the bus (a free parameter of the composition).                               *)
+(* FS line, in 48 MHz samples from the end of the EOP's SE0 to the first driven *)
+(* sample: not before 2 bit times (8) and before the host's bus time-out of 16  *)
+(* bit times (64) [USB2 7.1.18.1, 7.1.19.1].  The 6.5 bit-time device limit of  *)
+(* 7.1.18.1 is measured inside the device by C05's timer; no property states it *)
+(* at the pins (the gateware PHY's receive and transmit pipelines add several    *)
+(* bit times), so it is reported as information only, not demanded here.        *)
 GapMin(c) == IF c.phy = "ulpi" THEN (IF c.speed = "hs" THEN 1 ELSE 10) ELSE 8
-GapMax(c) == IF c.phy = "ulpi" THEN (IF c.speed = "hs" THEN 24 ELSE 32) ELSE 26
+GapMax(c) == IF c.phy = "ulpi" THEN (IF c.speed = "hs" THEN 24 ELSE 32) ELSE 64
 PhyLatency(c) == c.lat
 
 -----------------------------------------------------------------------------
